@@ -291,15 +291,16 @@ func (p *PackageAnnotations) ToTypeQuery() []TypeQuery {
 
 // Compile regex once
 var implementsRegex = regexp.MustCompile(
-	`^\s*//\s*@implements\s+(&)?(?:(\w+)\.)?(\w+)(?:\s+.*)?$`,
+	`^\s*//\s*@implements\s+(&)?(?:([\p{L}\p{Nd}_]+)\.)?([\p{L}\p{Nd}_]+)(?:\s+.*)?$`,
 	//                           ^1   ^2         ^3
 	// 1: pointer (optional)
 	// 2: package (optional)
 	// 3: interface name (required)
+	// Go identifiers may contain any Unicode letter or digit
 )
 
 var constructorRegex = regexp.MustCompile(
-	`^\s*//\s*@constructor(?:\s+([a-zA-Z_][a-zA-Z0-9_]*(?:\s*,\s*[a-zA-Z_][a-zA-Z0-9_]*)*(?:\s*,)?))?(?:\s+.*)?$`,
+	`^\s*//\s*@constructor(?:\s+([\p{L}_][\p{L}\p{Nd}_]*(?:\s*,\s*[\p{L}_][\p{L}\p{Nd}_]*)*(?:\s*,)?))?(?:\s+.*)?$`,
 	//                              ^1
 	// 1: comma-separated constructor names (only valid Go identifiers, optional trailing comma)
 )
@@ -321,7 +322,7 @@ var mutableRegex = regexp.MustCompile(
 )
 
 var packageOnlyRegex = regexp.MustCompile(
-	`^\s*//\s*@packageonly(?:\s+([a-zA-Z0-9_/.~+-]+(?:\s*,\s*[a-zA-Z0-9_/.~+-]+)*(?:\s*,)?))?(?:\s+.*)?$`,
+	`^\s*//\s*@packageonly(?:\s+([\p{L}\p{Nd}_/.~+-]+(?:\s*,\s*[\p{L}\p{Nd}_/.~+-]+)*(?:\s*,)?))?(?:\s+.*)?$`,
 	//                              ^1
 	// 1: comma-separated package names (valid package paths with slashes, dots, ~ and +, optional trailing comma)
 )
